@@ -11,13 +11,16 @@ import (
 	"bytes"
 	"context"
 	"encoding/json"
+	"encoding/xml"
 	"io"
 
 	"github.com/BurntSushi/toml"
 	"github.com/google/osv-scalibr/extractor/filesystem"
 	"github.com/google/osv-scalibr/extractor/filesystem/language/cpp/conanlock"
 	"github.com/google/osv-scalibr/extractor/filesystem/language/dotnet/depsjson"
+	"github.com/google/osv-scalibr/extractor/filesystem/language/dotnet/packagesconfig"
 	"github.com/google/osv-scalibr/extractor/filesystem/language/dotnet/packageslockjson"
+	"github.com/google/osv-scalibr/extractor/filesystem/language/java/gradleverificationmetadataxml"
 	"github.com/google/osv-scalibr/extractor/filesystem/language/javascript/bunlock"
 	"github.com/google/osv-scalibr/extractor/filesystem/language/javascript/packagejson"
 	"github.com/google/osv-scalibr/extractor/filesystem/language/javascript/packagelockjson"
@@ -35,6 +38,7 @@ import (
 	chromeextensions "github.com/google/osv-scalibr/extractor/filesystem/misc/chrome/extensions"
 	"github.com/google/osv-scalibr/extractor/filesystem/misc/vscodeextensions"
 	"github.com/google/osv-scalibr/extractor/filesystem/os/cos"
+	"github.com/google/osv-scalibr/extractor/filesystem/os/flatpak"
 	"github.com/google/osv-scalibr/extractor/filesystem/os/snap"
 	"github.com/google/osv-scalibr/internal/verifrt"
 	"github.com/google/osv-scalibr/internal/verifrt/symfs"
@@ -42,27 +46,30 @@ import (
 )
 
 var decodedTargets = map[string]target{
-	"bunlock":          {bunlock.New, "bun.lock"},
-	"composerlock":     {composerlock.New, "composer.lock"},
-	"packagelockjson":  {packagelockjson.NewDefault, "package-lock.json"},
-	"vscodeextensions": {vscodeextensions.New, "home/u/.vscode/extensions/extensions.json"},
-	"conanlock":        {conanlock.New, "conan.lock"},
-	"pipfilelock":      {pipfilelock.New, "Pipfile.lock"},
-	"renvlock":         {renvlock.New, "renv.lock"},
-	"chromeextensions": {chromeextensions.New, "home/u/.config/google-chrome/Default/Extensions/abcdefghijklmnopabcdefghijklmnop/1.0/manifest.json"},
-	"cos":              {cos.NewDefault, "etc/cos-package-info.json"},
-	"packageslockjson": {packageslockjson.NewDefault, "packages.lock.json"},
-	"depsjson":         {depsjson.NewDefault, "app.deps.json"},
-	"condameta":        {condameta.NewDefault, "envs/e/conda-meta/a-1.0-0.json"},
-	"packageresolved":  {packageresolved.NewDefault, "Package.resolved"},
-	"cargolock":        {cargolock.New, "Cargo.lock"},
-	"poetrylock":       {poetrylock.New, "poetry.lock"},
-	"pdmlock":          {pdmlock.New, "pdm.lock"},
-	"uvlock":           {uvlock.New, "uv.lock"},
-	"pnpmlock":         {pnpmlock.New, "pnpm-lock.yaml"},
-	"snap":             {snap.NewDefault, "snap/core/1/meta/snap.yaml"},
-	"podfilelock":      {podfilelock.NewDefault, "Podfile.lock"},
-	"packagejson":      {packagejson.NewDefault, "node_modules/a/package.json"},
+	"bunlock":            {bunlock.New, "bun.lock"},
+	"composerlock":       {composerlock.New, "composer.lock"},
+	"packagelockjson":    {packagelockjson.NewDefault, "package-lock.json"},
+	"vscodeextensions":   {vscodeextensions.New, "home/u/.vscode/extensions/extensions.json"},
+	"conanlock":          {conanlock.New, "conan.lock"},
+	"pipfilelock":        {pipfilelock.New, "Pipfile.lock"},
+	"renvlock":           {renvlock.New, "renv.lock"},
+	"chromeextensions":   {chromeextensions.New, "home/u/.config/google-chrome/Default/Extensions/abcdefghijklmnopabcdefghijklmnop/1.0/manifest.json"},
+	"cos":                {cos.NewDefault, "etc/cos-package-info.json"},
+	"packageslockjson":   {packageslockjson.NewDefault, "packages.lock.json"},
+	"depsjson":           {depsjson.NewDefault, "app.deps.json"},
+	"condameta":          {condameta.NewDefault, "envs/e/conda-meta/a-1.0-0.json"},
+	"packageresolved":    {packageresolved.NewDefault, "Package.resolved"},
+	"cargolock":          {cargolock.New, "Cargo.lock"},
+	"poetrylock":         {poetrylock.New, "poetry.lock"},
+	"pdmlock":            {pdmlock.New, "pdm.lock"},
+	"uvlock":             {uvlock.New, "uv.lock"},
+	"pnpmlock":           {pnpmlock.New, "pnpm-lock.yaml"},
+	"snap":               {snap.NewDefault, "snap/core/1/meta/snap.yaml"},
+	"podfilelock":        {podfilelock.NewDefault, "Podfile.lock"},
+	"packagejson":        {packagejson.NewDefault, "node_modules/a/package.json"},
+	"gradleverification": {gradleverificationmetadataxml.New, "gradle/verification-metadata.xml"},
+	"flatpak":            {flatpak.NewDefault, "var/lib/flatpak/app/a/current/active/export/share/metainfo/a.metainfo.xml"},
+	"packagesconfig":     {packagesconfig.NewDefault, "packages.config"},
 }
 
 // the decoder stubs (symbolic executor only; natively the real decoders run)
@@ -128,7 +135,17 @@ func stubYAMLUnmarshal(data []byte, v any) error {
 	return nil
 }
 
+func stubXMLDecode(d *xml.Decoder, v any) error {
+	name := stubDocName()
+	if name == "" {
+		return stubDecodeError{}
+	}
+	verifrt.Arbitrary(v, name, "xml")
+	return nil
+}
+
 var verifReplacements = map[string]any{
+	"(*encoding/xml.Decoder).Decode":               stubXMLDecode,
 	"(*gopkg.in/yaml.v3.Decoder).Decode":           stubYAMLDecode,
 	"gopkg.in/yaml.v3.Unmarshal":                   stubYAMLUnmarshal,
 	"(*encoding/json.Decoder).Decode":              stubJSONDecode,
